@@ -1,5 +1,4 @@
 import WV.Model.Client
-import WV.Props.ClientSkel
 import WV.Proofs.PyIR_C03
 
 /-!
@@ -11,7 +10,7 @@ each with its argument record) or `.fail s' e`.  `AgreeStep` compares that with 
 
 * the recorded calls that are *control* calls (collaborators `self._N`, `_M`, `_RC`, `_T`, `_B`, … — not the timing
   object, the SPAKE2 object, the wordlist, the status callback, the Dilator stub) carry, in order, the names
-  `ClientSkel.itemName` gives the pushed items (the same naming the skeleton obligation uses);
+  `itemName` gives the pushed items (the naming of the skeleton obligation `WV.Props.ClientSkel`);
 * the arguments the control model tracks agree (`Tracked`: moods, the phase class of `add_message`, the verdict
   handed to `W.closed`); every other argument (payloads, keys, nameplates, codes) is forgotten by the abstraction;
 * the heap after the run is related to the control flags after the step by the class's relation `Rel…`;
@@ -86,6 +85,35 @@ def ignorable (c : Call) : Bool :=
 
 def callName (c : Call) : String := c.obj ++ "." ++ c.meth
 
+def cmdName : Cmd → String
+  | .bind => "bind" | .claim => "claim" | .release => "release" | .open_ => "open" | .add _ => "add"
+  | .close _ => "close" | .list => "list" | .allocate => "allocate"
+
+def evName : AppEv → String
+  | .welcome => "got_welcome" | .code => "got_code" | .key => "got_key" | .verifier => "got_verifier"
+  | .versions => "got_versions" | .received => "received" | .closed _ => "closed"
+
+/-- the collaborator call an agenda item stands for (`none`: an internal continuation).  The same naming as
+    `WV.Props.ClientSkel.itemName`, repeated here so that these modules do not depend on the skeleton obligation
+    (a body change that breaks the skeleton must not hide which of these theorems it breaks). -/
+def itemName : Item → Option String
+  | .B i => some ("_B." ++ i.name) | .N i => some ("_N." ++ i.name) | .M i => some ("_M." ++ i.name)
+  | .T i => some ("_T." ++ i.name) | .C i => some ("_C." ++ i.name) | .A i => some ("_A." ++ i.name)
+  | .L i => some ("_L." ++ i.name) | .I i => some ("_I." ++ i.name) | .K i => some ("_K." ++ i.name)
+  | .SK i => some ("_SK." ++ i.name) | .O i => some ("_O." ++ i.name) | .R i => some ("_R." ++ i.name)
+  | .S i => some ("_S." ++ i.name)
+  | .tx c => some ("_RC.tx_" ++ cmdName c)
+  | .rcStop => some "_RC.stop"
+  | .dStop => some "_D.stop"
+  | .w e => some ("_W." ++ evName e)
+  | .setNameplate => some "_N.set_nameplate"
+  | .skGotPake => some "_SK.got_pake"
+  | .orderGot => some "_O.got_message"
+  | .receiveGot => some "_R.got_message"
+  | .bossGotMessage => some "_B.got_message"
+  | .drainPending => some "_RC.tx_add"
+  | _ => none
+
 /-- the arguments of a call that the control model tracks, per pushed item -/
 def Tracked (it : Item) (a : Arg) (args : List Val) : Prop :=
   match it with
@@ -98,7 +126,7 @@ def Tracked (it : Item) (a : Arg) (args : List Val) : Prop :=
   | _ => True
 
 def CallIs (c : Call) (p : Item × Arg) : Prop :=
-  WV.Props.ClientSkel.itemName p.1 = some (callName c) ∧ Tracked p.1 p.2 c.args
+  itemName p.1 = some (callName c) ∧ Tracked p.1 p.2 c.args
 
 def CallsAre : List Call → Agenda → Prop
   | [], [] => True
@@ -123,7 +151,7 @@ theorem exn_alreadyWords : Exn.name .alreadyChoseWords = "AlreadyChoseWordsError
 /-- symbolic evaluation for the control theorems: `pyir_eval` plus the control model's step and the naming -/
 macro "ctl_eval" "[" ts:Lean.Parser.Tactic.simpLemma,* "]" : tactic =>
   `(tactic| pyir_eval [WV.Client.exec, AgreeStep, envU, noBad, noRaise, noRets, CallIs, Tracked, callName, ignorable,
-      WV.Props.ClientSkel.itemName, WV.Props.ClientSkel.cmdName, WV.Props.ClientSkel.evName, moodStr_happy, moodStr_lonely, moodStr_scary,
+      itemName, cmdName, evName, moodStr_happy, moodStr_lonely, moodStr_scary,
       moodStr_errory, moodStr_unwelcome, List.filter,
       CallsAre, exn_assertion, exn_attribute, exn_keyFormat, exn_onlyOneCode, exn_mustChoose, exn_alreadyNameplate,
       exn_alreadyWords, $ts,*])
